@@ -66,10 +66,17 @@ type canCase struct {
 	//               context.Cause — what net/http reports for an interrupted exchange — is the custom error)
 	fault  string // none stall reject fail : what the transport does to the victim side's notifications/cancelled
 	//                 on fj (what the foreign server does with the POST of the notice): none late stall timeout s503 reset
+	bc     bool   // MCPGODEBUG=blockingcancelnotify=1: mcp.call sends the notice synchronously (cancelCall) before it retires the call
 	rclose bool   // the RECEIVER of the victim's request starts a graceful Close 5 ms before the victim's context ends
 }
 
-func (c *canCase) cfgOp() string { return fmt.Sprintf("cfg tr=%s pv=%s", c.tr, c.pv) }
+func (c *canCase) cfgOp() string {
+	op := fmt.Sprintf("cfg tr=%s pv=%s", c.tr, c.pv)
+	if c.bc {
+		op += " bc=1"
+	}
+	return op
+}
 func (c *canCase) callOp(i int) string {
 	k := c.calls[i]
 	op := fmt.Sprintf("c %d dir=%s meth=%s mode=%s d=%d at=%d", i, k.dir, k.meth, k.mode, k.d, k.at)
@@ -853,6 +860,11 @@ func canRunCase(t *testing.T, out *verifOut, id string, c *canCase) {
 			h.release[i] = make(chan struct{})
 		}
 		status := "ok"
+		if c.bc {
+			old := blockingcancelnotify
+			blockingcancelnotify = "1"
+			defer func() { blockingcancelnotify = old }()
+		}
 		defer func() {
 			if r := recover(); r != nil {
 				recs = append(recs, [3]string{c.cfgOp(), "panic", "panic"})
@@ -1064,7 +1076,7 @@ func canRunCase(t *testing.T, out *verifOut, id string, c *canCase) {
 		}
 		synctest.Wait()
 
-		recs = append(recs, [3]string{c.cfgOp(), status, strings.Join([]string{"tr=" + c.tr, "pv=" + c.pv, status}, ",")})
+		recs = append(recs, [3]string{c.cfgOp(), status, strings.Join([]string{"tr=" + c.tr, "pv=" + c.pv, status, map[bool]string{true: "blockingcancelnotify", false: "detached-notifier"}[c.bc]}, ",")})
 		for i, k := range c.calls {
 			recs = append(recs, [3]string{c.callOp(i), "ok", strings.Join([]string{"dir=" + k.dir, k.dir + ":" + k.meth, "mode=" + k.mode, "tr=" + c.tr + "/" + k.dir}, ",")})
 		}
@@ -1129,7 +1141,19 @@ func canJSON(tr string) bool         { return canStreamable(tr) && strings.Conta
 // responses every server→client message travels on the standalone stream (shj, shje have one); faults on the
 // server side of an HTTP transport are not injected (the handler creates the transport itself): there the
 // victim of a faulted cancellation is a client→server call.
+// canGen: in a twelfth of the cases whose notice is not held up by the transport the compatibility switch
+// MCPGODEBUG=blockingcancelnotify=1 is on (the caller then waits for the notice to be written, by design: with a
+// transport that stalls or acknowledges late it would not return promptly — the documented reason for the default).
 func canGen(rng *rand.Rand, tr string) *canCase {
+	c := canGen0(rng, tr)
+	switch c.fault {
+	case "none", "reject", "s503", "reset":
+		c.bc = rng.Intn(12) == 0
+	}
+	return c
+}
+
+func canGen0(rng *rand.Rand, tr string) *canCase {
 	c := &canCase{tr: tr, pv: canLegacy[rng.Intn(len(canLegacy))], fault: "none"}
 	isNew := strings.HasPrefix(tr, "sl") && strings.Contains(tr[2:], "p")
 	if isNew {
@@ -1345,6 +1369,7 @@ func canParse(lines []string) (*canCase, bool) {
 		switch f[0] {
 		case "cfg":
 			c.tr, c.pv = kv(f, "tr"), kv(f, "pv")
+			c.bc = kv(f, "bc") == "1"
 		case "c":
 			d, _ := strconv.Atoi(kv(f, "d"))
 			at, _ := strconv.Atoi(kv(f, "at"))
